@@ -412,7 +412,7 @@ class ImplResult:
         return {"verdict": self.verdict, "vals": self.vals}
 
 
-def run_impl(binary, lines, batch_timeout=300, tag="x", stall_timeout=45, max_hangs=4):
+def run_impl(binary, lines, batch_timeout=300, tag="x", stall_timeout=45, max_hangs=4, confirm_hang=True):
     """Run scenarios on the implementation.  Crash / hang of the binary = verdict for the scenario that was
     running; the binary is restarted after it."""
     n = len(lines)
@@ -478,6 +478,15 @@ def run_impl(binary, lines, batch_timeout=300, tag="x", stall_timeout=45, max_ha
         if "blocked goroutines remain" in tail or "deadlock: main bubble goroutine" in tail or "all goroutines in bubble are blocked" in tail:
             verdict_on_fail = "bubble-deadlock"
         results[bad] = ImplResult(verdict_on_fail, [], raw=tail[-1500:])
+        if verdict_on_fail == "hang" and confirm_hang and n > 1:
+            # a stall can also come from outside (the machine paused, a snapshot of the sandbox being taken): a hang only counts
+            # if the scenario hangs again when run alone in a fresh process; a scenario that really hangs does so deterministically
+            again = run_impl(binary, [lines[bad]], batch_timeout=batch_timeout, tag=tag + "r", stall_timeout=stall_timeout,
+                             max_hangs=1, confirm_hang=False)[0]
+            if again.verdict != "hang":
+                again.raw = "first attempt stalled for %d s without progress, the scenario ran normally when repeated alone" % stall_timeout
+                results[bad] = again
+                verdict_on_fail = "stall-not-reproduced"
         start = bad + 1
         restarts += 1
         hangs += 1 if verdict_on_fail == "hang" else 0
